@@ -615,12 +615,20 @@ def rule_h(ctx):
     fo = Folder(symbolic=True)
     fo.fold_all_methods = True
     fo.func_stack.append(f.node)
+    # the two supports are distinct: removing duplicates leaves them (and their number) as they are
+    sup0 = me.fields["supports"]
+    fo.overrides = {"np.unique": lambda a, k: (sup0, Opaque("idx", "IDX"), Opaque("cnt", "CNT")) if k.get("return_index") and k.get("return_counts") else sup0,
+                    "np.allclose": lambda a, k: True}
     env = {f.params[0]: me}
     for st in f.node.body:
         try:
             fo.stmt(st, env)
         except (Refuse, Raised):
             pass
+        if not isinstance(me.fields.get("num_supports"), int):
+            me.fields["num_supports"] = 2
+        if me.fields.get("supports") is not sup0 and not isinstance(me.fields.get("supports"), list):
+            me.fields["supports"] = sup0
     X = me.fields.get("X")
     want = [[f"K(<opaque s S{i}>, <opaque s S{j}>)" for j in range(2)] for i in range(2)]
     if not isinstance(X, Arr):
